@@ -86,6 +86,31 @@ def _leaf_ok(kind, x, e, scale=None):
         if n == 0:
             return abs(x) <= 1e-12
         return sx == s and close_rat(x * x, n, d)
+    if kind == "fq_ssqrt":
+        sign, num, den = e
+        if _is_any(num) or _is_any(den):
+            return True
+        want2 = fq_value(num, den)
+        if math.isnan(want2):
+            return isinstance(x, float) and math.isnan(x)
+        if not isinstance(x, (int, float)) or (isinstance(x, float) and math.isnan(x)):
+            return False
+        if math.isinf(want2):
+            return math.isinf(x) and ((x > 0) == (sign > 0))
+        if want2 == 0:
+            return abs(x) <= 1e-9
+        sx = (x > 0) - (x < 0)
+        return sx == sign and abs(x * x - want2) <= 1e-9 * max(1.0, want2)
+    if kind == "tail_t":
+        (sign, num, den), (dfn, dfd) = e
+        if _is_any(num) or _is_any(den):
+            return True
+        want = t_tail(fq_value(num, den), fq_value(dfn, dfd))
+        if math.isnan(want):
+            return isinstance(x, float) and math.isnan(x)
+        if not isinstance(x, (int, float)) or (isinstance(x, float) and math.isnan(x)):
+            return False
+        return abs(x - want) <= 1e-9
     if kind == "tail_normal":
         # e = [sign, z2]; expected p-value 2(1 - Phi(|z|)) = erfc(|z| / sqrt 2)
         n, d = e[1]
@@ -121,6 +146,33 @@ def _shape(x):
         return "?"
 
 
+def fq_value(num, den):
+    """float value of the formal quotient num / den of two spec rationals (IEEE rules)"""
+    def f(r):
+        n, d = r
+        if d == 0:
+            return float("nan") if n == 0 else math.copysign(float("inf"), n)
+        return n / d
+    a, b = f(num), f(den)
+    if math.isnan(a) or math.isnan(b):
+        return float("nan")
+    if b == 0:
+        return float("nan") if a == 0 else math.copysign(float("inf"), a)
+    if math.isinf(a) and math.isinf(b):
+        return float("nan")
+    return a / b
+
+
+def t_tail(t2, df):
+    """two-sided Student-t tail of sqrt(t2) with df degrees of freedom (scipy, as the
+    library itself uses); NaN when undefined"""
+    from scipy.stats import t as student
+    if math.isnan(t2) or math.isnan(df):
+        return float("nan")
+    with np.errstate(all="ignore"):
+        return float(2 * (1 - student.cdf(math.sqrt(t2) if t2 != float("inf") else t2, df=df)))
+
+
 def compare(observed, expected):
     """-> list of (path, observed leaf, expected leaf); empty when they agree"""
     kind, nd, v = expected["k"], expected["nd"], expected["v"]
@@ -140,6 +192,34 @@ def compare(observed, expected):
             errs.append(((), obs, want))
         return errs
     if kind == "any":
+        return errs
+    if kind == "pwidx":
+        alpha, only_larger = expected["alpha"], expected["only_larger"]
+        if not isinstance(obs, list) or len(obs) != len(v):
+            errs.append(((), "shape %s" % (_shape(obs),), "rows %d" % len(v)))
+            return errs
+        for i, row in enumerate(v):
+            if not isinstance(obs[i], list) or len(obs[i]) != len(row):
+                errs.append(((i,), "shape %s" % (_shape(obs[i]),), "cols %d" % len(row)))
+                return errs
+            for j, cands in enumerate(row):
+                must, may = set(), set()
+                for c in cands:
+                    if c["self"]:
+                        continue
+                    sign, num, den = c["t"]
+                    p = t_tail(fq_value(num, den), fq_value(c["df"][0], c["df"][1]))
+                    if math.isnan(p) or (only_larger and not sign < 0):
+                        continue
+                    if abs(p - alpha) <= 1e-9:
+                        may.add(c["pos"])
+                    elif p < alpha:
+                        must.add(c["pos"])
+                got = set(int(k) for k in obs[i][j])
+                if not (must <= got <= must | may):
+                    errs.append(((i, j), sorted(got), sorted(must)))
+                    if len(errs) > 5:
+                        return errs
         return errs
     if kind == "oneof":
         if obs not in v:
